@@ -126,9 +126,9 @@ def native_batch(root, harness, runs, timeout=900):
 
 
 # ------------------------------------------------------------------------------------ fp lemma
-def prove_fp_lemma(divisor, lo, hi, timeout_ms=300000):
-    """forall a in [lo,hi]: int(float(a)/float(k)) (IEEE double, RNE division, truncation) == trunc(a/k).
-    Returns (ok, solver_name, seconds)."""
+def prove_fp_lemma(divisor, mode, lo, hi, timeout_ms=300000):
+    """forall a in [lo,hi]: round_mode(float(a)/float(k)) (IEEE double, RNE division) == the integer quotient with
+    the same rounding (trunc / floor / ceil).  Returns (ok, solver_name, seconds)."""
     t0 = time.time()
     width = 64
     try:
@@ -142,15 +142,29 @@ def prove_fp_lemma(divisor, lo, hi, timeout_ms=300000):
         bv = mk.mkBitVectorSort(width)
         a = mk.mkConst(bv, "a")
         k = mk.mkBitVector(width, divisor)
+        one = mk.mkBitVector(width, 1)
+        zero = mk.mkBitVector(width, 0)
         rne = mk.mkRoundingMode(cvc5.RoundingMode.ROUND_NEAREST_TIES_TO_EVEN)
-        rtz = mk.mkRoundingMode(cvc5.RoundingMode.ROUND_TOWARD_ZERO)
+        rm = {"trunc": cvc5.RoundingMode.ROUND_TOWARD_ZERO, "floor": cvc5.RoundingMode.ROUND_TOWARD_NEGATIVE,
+              "ceil": cvc5.RoundingMode.ROUND_TOWARD_POSITIVE}[mode]
+        rmt = mk.mkRoundingMode(rm)
         to_fp = mk.mkOp(Kind.FLOATINGPOINT_TO_FP_FROM_SBV, 11, 53)
         fa = mk.mkTerm(to_fp, rne, a)
         fk = mk.mkTerm(to_fp, rne, k)
         q = mk.mkTerm(Kind.FLOATINGPOINT_DIV, rne, fa, fk)
         to_sbv = mk.mkOp(Kind.FLOATINGPOINT_TO_SBV, width)
-        qi = mk.mkTerm(to_sbv, rtz, q)
-        ref = mk.mkTerm(Kind.BITVECTOR_SDIV, a, k)
+        qi = mk.mkTerm(to_sbv, rmt, q)
+        sdiv = mk.mkTerm(Kind.BITVECTOR_SDIV, a, k)
+        srem = mk.mkTerm(Kind.BITVECTOR_SREM, a, k)
+        inexact = mk.mkTerm(Kind.DISTINCT, srem, zero)
+        if mode == "trunc":
+            ref = sdiv
+        elif mode == "floor":
+            ref = mk.mkTerm(Kind.ITE, mk.mkTerm(Kind.AND, mk.mkTerm(Kind.BITVECTOR_SLT, a, zero), inexact),
+                            mk.mkTerm(Kind.BITVECTOR_SUB, sdiv, one), sdiv)
+        else:
+            ref = mk.mkTerm(Kind.ITE, mk.mkTerm(Kind.AND, mk.mkTerm(Kind.BITVECTOR_SGT, a, zero), inexact),
+                            mk.mkTerm(Kind.BITVECTOR_ADD, sdiv, one), sdiv)
         lo_t = mk.mkBitVector(width, lo % (1 << width))
         hi_t = mk.mkBitVector(width, hi % (1 << width))
         slv.assertFormula(mk.mkTerm(Kind.BITVECTOR_SLE, lo_t, a))
@@ -170,10 +184,14 @@ def prove_fp_lemma(divisor, lo, hi, timeout_ms=300000):
     fa = z3.fpSignedToFP(z3.RNE(), a, dbl)
     fk = z3.fpSignedToFP(z3.RNE(), k, dbl)
     q = z3.fpDiv(z3.RNE(), fa, fk)
-    qi = z3.fpToSBV(z3.RTZ(), q, z3.BitVecSort(width))
+    rm = {"trunc": z3.RTZ(), "floor": z3.RTN(), "ceil": z3.RTP()}[mode]
+    qi = z3.fpToSBV(rm, q, z3.BitVecSort(width))
+    sdiv = a / k
+    inexact = z3.SRem(a, k) != 0
+    ref = sdiv if mode == "trunc" else (z3.If(z3.And(a < 0, inexact), sdiv - 1, sdiv) if mode == "floor" else z3.If(z3.And(a > 0, inexact), sdiv + 1, sdiv))
     s = z3.Solver()
     s.set("timeout", timeout_ms)
-    s.add(a >= z3.BitVecVal(lo, width), a <= z3.BitVecVal(hi, width), qi != a / k)   # signed comparisons / bvsdiv
+    s.add(a >= z3.BitVecVal(lo, width), a <= z3.BitVecVal(hi, width), qi != ref)   # signed comparisons / bvsdiv
     r = s.check()
     return (r == z3.unsat), "z3", round(time.time() - t0, 2)
 
@@ -312,7 +330,7 @@ def execute(prop, tier, seed):
         a["funcs"].update(tuple(f) for f in r.get("funcs", []))
         a["sources"].update(r.get("sources", {}))
         a["wall_s"] += r.get("task_wall_s", 0)
-        a["fp_uses"].update(r.get("fp_uses", []))
+        a["fp_uses"].update(tuple(x) for x in r.get("fp_uses", []))
         a["assumptions"].update(r.get("assumptions", []))
         a["completed"] += r.get("completed", 0)
     run.job_results = agg
@@ -397,11 +415,11 @@ def execute(prop, tier, seed):
     if divisors:
         ctx = mp.get_context("fork")
         with ctx.Pool(processes=min(len(divisors), 16)) as pool:
-            outs = pool.starmap(prove_fp_lemma, [(d, fp_range[0], fp_range[1]) for d in sorted(divisors)])
-        for d, (ok, who, secs) in zip(sorted(divisors), outs):
-            run.fp.append({"divisor": d, "range": list(fp_range), "proved": ok, "solver": who, "seconds": secs})
+            outs = pool.starmap(prove_fp_lemma, [(d, m, fp_range[0], fp_range[1]) for (d, m) in sorted(divisors)])
+        for (d, m), (ok, who, secs) in zip(sorted(divisors), outs):
+            run.fp.append({"divisor": d, "rounding": m, "range": list(fp_range), "proved": ok, "solver": who, "seconds": secs})
             if not ok:
-                run.problem(f"float-division lemma for divisor {d} over {fp_range} not proved")
+                run.problem(f"float-division lemma for divisor {d} ({m}) over {fp_range} not proved")
     # ---- cleanup scratch roots
     for name, root in roots.items():
         if name != "src":
